@@ -26,4 +26,14 @@ def pyRemainder (x y : Rat) : Rat := x - y * ((x / y).floor : Rat)
 def pyAbs (x : Rat) : Rat := if x < 0 then -x else x
 def pySign (x : Rat) : Rat := if 0 < x then 1 else if x < 0 then -1 else 0
 
+/-- a scheduled propagation event as the agent's queue holds it: an impulse (`time`) or an event with a duration
+(`isBurn`: `ScheduledFiniteManeuver` / `ScheduledFiniteBurn`, with `start_time`, `end_time`); `id` distinguishes objects -/
+structure Ev where
+  id : Nat
+  isBurn : Bool
+  time : Rat
+  start_time : Rat
+  end_time : Rat
+deriving Repr, DecidableEq
+
 end RV.Py
